@@ -468,16 +468,19 @@ SyntaxVisitor::Action Disambiguator::visitAmbiguousTypeNameOrExpressionAsTypeRef
         const AmbiguousTypeNameOrExpressionAsTypeReferenceSyntax*)
 {
     PSY_ASSERT_FAIL_1(return Action::Quit);
+    return Action::Quit;
 }
 
 SyntaxVisitor::Action Disambiguator::visitAmbiguousCastOrBinaryExpression(
         const AmbiguousCastOrBinaryExpressionSyntax*)
 {
     PSY_ASSERT_FAIL_1(return Action::Quit);
+    return Action::Quit;
 }
 
 SyntaxVisitor::Action Disambiguator::visitAmbiguousExpressionOrDeclarationStatement(
         const AmbiguousExpressionOrDeclarationStatementSyntax*)
 {
     PSY_ASSERT_FAIL_1(return Action::Quit);
+    return Action::Quit;
 }
